@@ -5,6 +5,17 @@ HERE = os.path.dirname(os.path.dirname(os.path.abspath(__file__)))
 ALL = ['C%02d' % i for i in range(1, 21)]
 
 CLAIMED = {
+ 'C02': dict(
+    level='model_checking',
+    text='MC_ConstExpr.tla enumerates every constant expression a op b / op a over every operator, every ordered pair of operand types '
+         'and the boundary values of each type and checks the laws of the value operators of QBValues.tla (totality, typing, commutativity, '
+         'quotient/remainder, trichotomy); every combination is placed in PRINT, assignment-with-conversion, CONST and static DIM-bound '
+         'contexts, compiled at -O0, -O1, -O2, -O3 and -O2 -g and run; Trace_QB.tla validates each level against the source semantics, so a '
+         'level that rejects, crashes, or differs from -O0 or from the specified value/type/error is reported; generated whole programs '
+         'are validated at all levels the same way. Peephole windows are exercised through these programs, not yet enumerated as windows.',
+    note='Trusted: TLC, generator/unparser, event observer. Float results outside the exact dyadic window are compared across levels only up to the first such value.',
+    technique='TLC enumeration of constant expressions + TLA+ source semantics as oracle; trace validation of runs at every optimisation level',
+    design='6 C02'),
  'C01': dict(
     level='model_checking',
     text='QBValues/QBExpr/QB.tla are a statement-level operational semantics of the generated QBASIC subset (typed values with exact '
